@@ -56,11 +56,11 @@ def native_disagreement(run, hc, hk, tries=2):
     for t in range(tries):
         shp = shape_for(hc, hk, t)
         for k_edit in (3.0, None):
-            sc = scenarios.Scenario(*shp, seed=run.seed + 13 * t)
+            sc = scenarios.Scenario(*shp, seed=run.seed + 13 * t, share_reading=True)
             run.native_runs += 1
             problems, det = cxxcompare.compare(sc, k_edit=k_edit, seed=run.seed + t)
             if problems:
-                return problems, {"language": "python+c++", "inputs": {"shape": list(shp), "seed": run.seed + 13 * t, "point_seed": run.seed + t, "k_edit": k_edit, "cse": True}, "model_definition": sc.describe(), "oracle_verdict": problems[:6]}
+                return problems, {"language": "python+c++", "inputs": {"shape": list(shp), "seed": run.seed + 13 * t, "point_seed": run.seed + t, "k_edit": k_edit, "cse": True, "share_reading": True}, "model_definition": sc.describe(), "oracle_verdict": problems[:6]}
     return None, None
 
 
@@ -240,7 +240,7 @@ def wiring_problems(sc, header):
 
 def _native_case(args):
     shp, seed, k_edit, cse, container = args
-    sc = scenarios.Scenario(*shp, seed=seed)
+    sc = scenarios.Scenario(*shp, seed=seed, share_reading=True)
     try:
         problems, det = cxxcompare.compare(sc, k_edit=k_edit, cse=cse, seed=seed % 7, container=container)
         header, _, _ = cppgen.generate(sc, cse=cse, innovation_filtering=k_edit, container=container)
@@ -269,7 +269,7 @@ def native_sweep(run, n):
             fails += 1
             shp, seed, k_edit, cse, container = args
             ob = run.prove(f"C07.native.python_vs_compiled_cxx[{fails}]", [], z3.BoolVal(False), function="python.compile_ekf vs compiled generated C++ (stand-in Eigen)")
-            run.findings.append(Finding(ob.name, "native", f"shape n,c,k,sensors={shp}, threshold {k_edit}, cse={cse}, {container}s: {problems[0]}", {"language": "python+c++", "inputs": {"shape": list(shp), "seed": seed, "point_seed": seed % 7, "k_edit": k_edit, "cse": cse, "container": container}, "model_definition": desc, "oracle_verdict": problems[:6]}, True))
+            run.findings.append(Finding(ob.name, "native", f"shape n,c,k,sensors={shp}, threshold {k_edit}, cse={cse}, {container}s: {problems[0]}", {"language": "python+c++", "inputs": {"shape": list(shp), "seed": seed, "point_seed": seed % 7, "k_edit": k_edit, "cse": cse, "container": container, "share_reading": True}, "model_definition": desc, "oracle_verdict": problems[:6]}, True))
     run.bounded.append({"what": "python filter vs compiled generated C++ filter (g++, stand-in Eigen), inputs and outputs exchanged BY NAME: predicted state/covariance, and per sensor x {near, far} reading: posterior state/covariance, stored innovation, accept/reject; plus type wiring (matrix sizes, SensorModel alias, identifiers)", "bound": f"{len(cases)} programs (all four control x calibration combinations, thresholds 3.0 / 0.5 / disabled, both CSE settings, sets and lists), tolerance 1e-9", "failures": fails, "counted_as_proved": False})
     return fails
 
